@@ -347,7 +347,6 @@ void harness(void) {
 	for (i = 0; i < T2_QMAX; i++) if (i < t2_qlen0 && t2_removed[i]) {
 		if (T2H(i).state == KSI_ASYNC_STATE_WAITING_FOR_RESPONSE && t2_state0[i] == KSI_ASYNC_STATE_WAITING_FOR_DISPATCH) {
 			n_sent++;
-			__CPROVER_assert(t2_whole[i], "sent: the request's last octet went out in this call");
 			__CPROVER_assert(!spec_async_timed_out(t2_now0, t2_reqTime0[i], sto), "sent => its send time-out had not elapsed (clock is monotone: not even at the start of the call)");
 			__CPROVER_assert(T2H(i).sndTime >= t2_now0 && T2H(i).sndTime <= t2_now, "sent => the receive time-out clock starts at the time of sending");
 			__CPROVER_assert(T2H(i).raw == NULL && T2H(i).len == 0 && T2H(i).sentCount == 0, "sent => serialized payload released, cursor reset");
@@ -358,10 +357,10 @@ void harness(void) {
 			__CPROVER_assert(t2_written[i] == 0, "send time-out => not an octet of the request is written in this call");
 		} else n_other++;
 	}
-	restarted = (tcp.roundStartAt != t2_roundStartAt0 || tcp.roundCount < t2_roundCount0);
-	__CPROVER_assert(IMPLIES(!restarted, tcp.roundCount == t2_roundCount0 + n_sent), "throttle: the round counter counts exactly the requests written completely (not time-outs, not dropped ones)");
-	__CPROVER_assert(IMPLIES(restarted, spec_async_round_over(t2_now, t2_roundStartAt0, dur) && tcp.roundStartAt >= t2_now0 && tcp.roundStartAt <= t2_now && tcp.roundCount <= n_sent),
-			"throttle: a new round starts only when the round duration has elapsed; it starts now and counts from 0");
+	restarted = spec_async_round_over(t2_now, t2_roundStartAt0, dur);     /* the round duration has elapsed by the END of the call (monotone clock): only then may a new round have been started */
+	__CPROVER_assert(IMPLIES(!restarted, tcp.roundStartAt == t2_roundStartAt0 && tcp.roundCount == t2_roundCount0 + n_sent), "throttle: no new round before the round duration has elapsed; the round counter counts exactly the requests written completely (not time-outs, not dropped ones)");
+	__CPROVER_assert(IMPLIES(restarted, tcp.roundCount <= t2_roundCount0 + n_sent && (tcp.roundStartAt == t2_roundStartAt0 || (tcp.roundStartAt >= t2_now0 && tcp.roundStartAt <= t2_now))),
+			"throttle: a new round starts at the current time and counts from 0");
 	__CPROVER_assert(IMPLIES(n_sent > 0, tcp.roundCount <= maxc), "throttle: never more than the configured number of requests per round");
 	__CPROVER_assert(IMPLIES(t2_send_calls > 0 || t2_rm_seq > 0, t2_poll_res > 0 && (t2_revents & POLLOUT)), "output only when poll reports the socket writable");
 	/* progress: nothing is held back without a reason */
